@@ -24,20 +24,20 @@
 
 /*@unit {'name':'c14_align', 'props':['C14'], 'entry':'h_align', 'enforce':'align',
          'claims':'align(p) is the smallest multiple of the machine word size (8) that is >= p, for every p that does not wrap'}@*/
-/*@unit {'name':'c14_read_literal', 'props':['C14'], 'entry':'h_read_literal', 'enforce':'read_literal', 'min_loops':1, 'defines':['LOOP_CONTRACTS'],
+/*@unit {'name':'c14_read_literal', 'props':['C14','C01'], 'entry':'h_read_literal', 'enforce':'read_literal', 'min_loops':1, 'defines':['LOOP_CONTRACTS'],
          'replay':'c14_lz4', 'witness_defines':['WITNESS'], 'witness_vars':['w_n','w_at','w_l','w_b'],
          'claims':'read_literal: reads only [s,e), leaves s in [old s,e]; a nibble below 15 (or an exhausted input) is returned unchanged; otherwise the result is 15 + 255*(k-1) + last byte (mod 2^32) where the k>=1 bytes consumed are a run of 0xff closed by the first other byte or by the end of the input; terminates (decreases)'}@*/
-/*@unit {'name':'c14_read_sequence', 'props':['C14'], 'entry':'h_read_sequence', 'enforce':'read_sequence', 'kind':'bounded', 'loop_contracts':False, 'unwind':50,
+/*@unit {'name':'c14_read_sequence', 'props':['C14','C01'], 'entry':'h_read_sequence', 'enforce':'read_sequence', 'kind':'bounded', 'loop_contracts':False, 'unwind':50,
          'bound':'input of at most 48 bytes (the only loop is read_literal\'s, proved for all sizes in c14_read_literal; read_sequence itself is loop-free)',
          'replay':'c14_lz4', 'witness_defines':['WITNESS'], 'witness_vars':['w_n','w_at','w_b'],
          'claims':'read_sequence (real read_literal inlined): reads only [src,end); the literal run starts inside the input; returns true exactly when the literals, the 2-byte offset and the match length bytes fit and leave MINCODA=6 bytes (token + LASTLITERALS) of input, then literal+literal_len+2 <= src <= end-6, match_dist is the little-endian 16-bit offset, match_len = nibble(+extension)+MINMATCH, literal_len = nibble(+extension); on false the literal run still starts inside [src,end]'}@*/
-/*@unit {'name':'c14_safe_copy', 'props':['C14'], 'loop_contracts':False, 'entry':'h_copy', 'enforce':'safe_copy', 'kind':'bounded', 'unwind':18, 'bound':'n <= 16 bytes in a 24-byte object',
+/*@unit {'name':'c14_safe_copy', 'props':['C14','C01'], 'loop_contracts':False, 'entry':'h_copy', 'enforce':'safe_copy', 'kind':'bounded', 'unwind':18, 'bound':'n <= 16 bytes in a 24-byte object',
          'claims':'safe_copy writes exactly [d,d+n), reads exactly [s,s+n), returns d+n, and has byte-serial (LZ77 overlapping) semantics: d[i] = s[i] evaluated after the bytes before it were stored'}@*/
-/*@unit {'name':'c14_overrun_copy', 'props':['C14'], 'loop_contracts':False, 'entry':'h_copy', 'enforce':'overrun_copy', 'kind':'bounded', 'unwind':7, 'bound':'n <= 40 bytes in a 48-byte object',
+/*@unit {'name':'c14_overrun_copy', 'props':['C14','C01'], 'loop_contracts':False, 'entry':'h_copy', 'enforce':'overrun_copy', 'kind':'bounded', 'unwind':7, 'bound':'n <= 40 bytes in a 48-byte object',
          'claims':'overrun_copy (n >= 1, source at least one word behind the destination or in another object) writes at most [d,d+align(n)), reads at most [s,s+align(n)), returns d+n and the first n bytes have byte-serial copy semantics'}@*/
-/*@unit {'name':'c14_fast_copy', 'props':['C14'], 'loop_contracts':False, 'entry':'h_copy', 'enforce':'fast_copy', 'kind':'bounded', 'unwind':10, 'bound':'n <= 40 bytes in a 48-byte object',
+/*@unit {'name':'c14_fast_copy', 'props':['C14','C01'], 'loop_contracts':False, 'entry':'h_copy', 'enforce':'fast_copy', 'kind':'bounded', 'unwind':10, 'bound':'n <= 40 bytes in a 48-byte object',
          'claims':'fast_copy (non-overlapping) writes exactly [d,d+n), reads exactly [s,s+n), returns d+n, d[i] = s[i]'}@*/
-/*@unit {'name':'c14_lz4_safety', 'props':['C14'], 'entry':'h_lz4', 'enforce':'lz4_decompress', 'replace':['read_sequence','overrun_copy','safe_copy','fast_copy'], 'min_loops':1, 'defines':['LOOP_CONTRACTS','COPY_STUBS_DO_NOT_WRITE','GHOST_PROTOCOL'], 'cost':100, 'timeout':1800,
+/*@unit {'name':'c14_lz4_safety', 'props':['C14','C01'], 'entry':'h_lz4', 'enforce':'lz4_decompress', 'replace':['read_sequence','overrun_copy','safe_copy','fast_copy'], 'min_loops':1, 'defines':['LOOP_CONTRACTS','COPY_STUBS_DO_NOT_WRITE','GHOST_PROTOCOL'], 'cost':100, 'timeout':1800,
          'replay':'c14_lz4', 'witness_defines':['WITNESS'], 'witness_vars':['w_in_n','w_out_n','w_b'],
          'claims':'lz4::decompress on arbitrary input bytes: every read lies in [in,in+in_size), every write in [out,out+out_size) (the bounds the copy primitives need - word overrun included - follow from the tests in the loop), the result is -1 or a length <= out_size, blocks that do not shrink the data are refused, and the main loop terminates (each sequence consumes input); ghost copy protocol: on success the decoder has issued exactly the copy program of the sequences read_sequence returned - per sequence the literal run, then match_len bytes from match_dist (1 <= match_dist <= bytes produced) back, each copy starting where the previous ended, then the final literals - and the result is the number of bytes produced'}@*/
 /*@unit {'name':'c14_lz4_ref_sound', 'props':['C14'], 'entry':'h_lz4_ref', 'kind':'bounded', 'loop_contracts':False, 'object_bits':12, 'cost':80, 'timeout':3000,
